@@ -63,7 +63,7 @@ TYield    == /\ Is("Yield") /\ ConsYield
 TBreak    == Is("Break") /\ ConsBreak /\ Step
 TCancel   == /\ Is("Cancel") /\ cons = "cancel" /\ cur.f = E.f
              /\ FinCancel
-             /\ E.did = (fut[E.f] = "pending")
+             /\ E.did = Cancellable(E.f)
              /\ Step
 TClosed   == /\ Is("Closed") /\ FinJoin
              /\ raised.k = E.k /\ raised.i = E.i /\ E.fa = FALSE
@@ -74,10 +74,13 @@ TSilent == /\ \/ FeederCheckStop \/ ConsSetStop \/ FinDrainEmpty \/ WorkerTake
               \/ \E i \in 1..p.n : (WorkerSetRunning(i) \/ WorkerSkip(i))
            /\ Silent
 
+\* `y = await t` of the async consumer cannot be observed from outside: silent in async traces
+TSilentAsync == p.mode = "async" /\ ConsAwait /\ Silent
+
 TraceNext ==
   \/ TNext \/ TPull \/ TSrcEnd \/ TSrcRaise \/ TPreFail \/ TSubmit \/ TPut \/ TWStart \/ TWFinish
   \/ TGet \/ TAwait \/ TYield \/ TBreak \/ TCancel \/ TClosed \/ TExecShut
-  \/ TSilent
+  \/ TSilent \/ TSilentAsync
 
 TraceSpec == TraceInit /\ [][TraceNext]_tvars
 
